@@ -288,6 +288,26 @@ def d3(ck: Check) -> None:
     # "reaches a forbidden node" (the node itself included): recognised complete constructions only
     HOT = ad.func.value.id
     dag = f"{sdp}.dag"
+    # the set that is tested later is the set that was classified: nothing but the classification (and, in the fused
+    # form, the ancestors added next to it) changes it
+    probs = []
+    for n_ in own_walk(f.node):
+        if isinstance(n_, ast.AugAssign) and text(n_.target) == HOT:
+            probs.append(f"line {n_.lineno}: `{text(n_)[:60]}` changes the forbidden set after the classification")
+        elif isinstance(n_, ast.Call) and isinstance(n_.func, ast.Attribute) and text(n_.func.value) == HOT and n_ is not ad \
+                and n_.func.attr in ("discard", "remove", "pop", "clear", "difference_update", "intersection_update",
+                                     "symmetric_difference_update", "add", "update"):
+            arg0 = n_.args[0] if n_.args else None
+            if n_.func.attr == "update" and isinstance(arg0, ast.Call) and (dotted(arg0.func) or "").split(".")[-1] == "ancestors":
+                continue
+            probs.append(f"line {n_.lineno}: `{text(n_)[:60]}` changes the forbidden set outside the classification")
+        elif isinstance(n_, ast.Assign) and any(text(t_) == HOT for t_ in n_.targets):
+            v_ = n_.value
+            if not (isinstance(v_, ast.Call) and callee_name(v_) in ("set",) and not v_.args):
+                probs.append(f"line {n_.lineno}: the forbidden set is re-bound (`{text(n_)[:60]}`)")
+    ck.ob("D3", fm, f.stmt_of(ad), not probs, ("; ".join(probs) + ": a forbidden node that leaves the set can become an end point, "
+          "and its safe parents no longer count as reaching a forbidden node") if probs else
+          "the forbidden set is only filled by the classification", key="hot set stable")
 
     def closure_maps():
         """D with D[s] = set(descendants(dag, s)) + {s} for every node s  ->  {name: problems}"""
